@@ -235,12 +235,23 @@ def mutations(rng, sch, e):
             same = [j for j, f in enumerate(sch.fns) if lg.LIB[f[1]] == lg.LIB[lib] and lg.LIB[lib] is not None and j != x[1]]
             if same:
                 yield "identifier", replace(e, p, ("call", rng.choice(same)) + x[2:])
+            # one argument less: the variadic concat keeps >= 2, a function keeps its mandatory parameters
+            args = x[2]
+            sig = lg.LIB[lib]
+            least = 2 if sig is None else len(sig[0])
+            if len(args) > least:
+                yield "argument-count", replace(e, p, ("call", x[1], tuple(args[:-1])) + x[3:])
+            elif sig is None and args:
+                # ... or one more (a copy of the last one: concat takes any number of arguments of one type)
+                yield "argument-count", replace(e, p, ("call", x[1], tuple(args) + (args[-1],)) + x[3:])
         elif k == "lit":
             yield "literal", replace(e, p, ("lit", mutate_rhs(rng, x[1])))
 
 
-def gen_distinct(rng, sch, e):
+def gen_distinct(rng, sch, e, only=None):
     for kind, m in mutations(rng, sch, e):
+        if only is not None and kind != only:
+            continue
         m = fix_inlist(sch, normal_form(m))
         if m == e or not is_nf(m) or not renderable(m):
             continue
@@ -281,6 +292,20 @@ def gen(rng, tier):
                 if d:
                     MUT_KINDS[d[0]] = MUT_KINDS.get(d[0], 0) + 1
                     out.append(d[1])
+    # pairs that differ in the number of arguments of one call (the rarest kind among the random picks above)
+    sch = lg.rich_scheme()
+    g = lg.Gen(rng, sch, features=FEATURES, max_depth=3)
+    want, tries = (40 if quick else 400), 0
+    while want > 0 and tries < 20000:
+        tries += 1
+        e = fix_inlist(sch, normal_form(g.gen_filter()))
+        if not renderable(e) or "'call'" not in repr(e):
+            continue
+        d = gen_distinct(rng, sch, e, only="argument-count")
+        if d:
+            MUT_KINDS[d[0]] = MUT_KINDS.get(d[0], 0) + 1
+            out.append(d[1])
+            want -= 1
     out += notation_pairs(rng)
     return out
 
